@@ -19,7 +19,7 @@
 (* (single gaps, two-character names) so that (M) is self-contained.  The    *)
 (* conformance passes re-render the emitted shapes as real text and take the *)
 (* positions from that text.                                                 *)
-EXTENDS LoaderProc, IOUtils, Json
+EXTENDS LoaderProc, IOUtils, Json, SequencesExt
 
 CONSTANTS Family,     \* "c13" | "c33" | "c34": which dimension is enumerated
           MaxObjs, MaxFiles, MaxRefs, MaxPostpone
@@ -100,14 +100,14 @@ DefaultRefs(s) ==
   [i \in 1..Len(ow) |-> [owner |-> ow[i], target |-> MinOf(Visible(s, s[ow[i]].file)), parts |-> 1, sched |-> 0]]
 SchedOK(rs) == \A q \in 0..MaxPostpone :
                  (\E i \in 1..Len(rs) : rs[i].sched = q) \/ (\A i \in 1..Len(rs) : rs[i].sched < q)
-AllRefs(s) ==
-  LET ow == RefOwners(s)
-      choice(i) == {[owner |-> ow[i], target |-> t, parts |-> p, sched |-> q] :
-                      t \in Visible(s, s[ow[i]].file), p \in 1..3, q \in 0..MaxPostpone}
-      ok(i, c) == c.parts <= 1 + PkgDepth(s, c.target)
-  IN {rs \in [1..Len(ow) -> UNION {choice(i) : i \in 1..Len(ow)}] :
-        /\ \A i \in 1..Len(ow) : rs[i] \in choice(i) /\ ok(i, rs[i])
-        /\ SchedOK(rs)}
+RefChoices(s, o) ==
+  {c \in {[owner |-> o, target |-> t, parts |-> p, sched |-> q] :
+            t \in Visible(s, s[o].file), p \in 1..3, q \in 0..MaxPostpone} :
+     c.parts <= 1 + PkgDepth(s, c.target)}
+RECURSIVE RefSeqs(_, _, _)
+RefSeqs(s, ow, i) == IF i = 0 THEN {<<>>}
+                     ELSE UNION {{Append(rs, c) : c \in RefChoices(s, ow[i])} : rs \in RefSeqs(s, ow, i - 1)}
+AllRefs(s) == LET ow == RefOwners(s) IN {rs \in RefSeqs(s, ow, Len(ow)) : SchedOK(rs)}
 
 ----------------------------------------------------------------------------
 \* abstract layout
@@ -161,9 +161,12 @@ RelevantRules(s) == UNION {{s[o].kind, IF s[o].parent = 0 THEN s[o].kind
                              : o \in 1..Len(s)}
 Tables(s) == {<<P, R>> \in (SUBSET RelevantRules(s)) \X (SUBSET RelevantRules(s)) : R \subseteq P}
 
-C13Scenarios ==
-  UNION {{Build(s, DefaultRefs(s), "main.m", SetToSeq(t[1]), SetToSeq(t[2]), NoFault) : t \in Tables(s)}
+C13Scenarios(u) ==
+  UNION {LET base == Build(s, DefaultRefs(s), "main.m", <<>>, <<>>, NoFault) IN
+         {[base EXCEPT !.procs = SeqOfSet(t[1]), !.repl = SeqOfSet(t[2])] : t \in Tables(s)}
            : s \in Shapes}
+\* shapes only (the conformance pass multiplies them with processor tables itself)
+ShapeScenarios(u) == {Build(s, DefaultRefs(s), "main.m", <<>>, <<>>, NoFault) : s \in Shapes}
 
 \* C33: every processor call and every named object's name match as the failing
 \* site, every row of the decision table
@@ -171,29 +174,34 @@ SupChoices == {<<l, c, n, f>> \in {0, 77} \X {0, 88} \X {0, 99} \X {"", "supplie
                  l # 0 \/ c # 0 \/ n # 0 \/ f # ""}
 Excs == {[exc |-> "txnoloc", sup |-> <<0, 0, 0, "">>], [exc |-> "other", sup |-> <<0, 0, 0, "">>]}
         \cup {[exc |-> "txsome", sup |-> u] : u \in SupChoices}
-C33Scenarios ==
+C33Scenarios(u) ==
   UNION {
     LET rs == DefaultRefs(s)
-        procs == SetToSeq(RelevantRules(s))
-        base == Build(s, rs, "main.m", procs, <<>>, NoFault)
-        objSites == {<<o, r>> \in (1..Len(s)) \X RelevantRules(s) : ExpectedCount(base, o, r) = 1}
+        procs == SeqOfSet(RelevantRules(s))
+        base(main) == Build(s, rs, main, procs, <<>>, NoFault)
+        b0 == base("main.m")
+        objSites == {<<o, r>> \in (1..Len(s)) \X RelevantRules(s) : ExpectedCount(b0, o, r) = 1}
         matchSites == {o \in 1..Len(s) : s[o].kind \in {"Pkg", "Cell", "DefA", "DefB"}}
-        mk(proc, o, r, e, w, main) ==
-          Build(s, rs, main, procs, <<>>,
-                [on |-> TRUE, proc |-> proc, obj |-> o, rule |-> r, exc |-> e.exc, wrap |-> w,
-                 sline |-> e.sup[1], scol |-> e.sup[2], snchar |-> e.sup[3], sfile |-> e.sup[4],
-                 mfile |-> s[o].file, mline |-> 1, mcol |-> base.objs[o].start + 6])
+        flt(proc, o, r, e, w) ==
+          [on |-> TRUE, proc |-> proc, obj |-> o, rule |-> r, exc |-> e.exc, wrap |-> w,
+           sline |-> e.sup[1], scol |-> e.sup[2], snchar |-> e.sup[3], sfile |-> e.sup[4],
+           mfile |-> s[o].file, mline |-> 1, mcol |-> b0.objs[o].start + 6]
         mains == IF NumFiles(s) = 1 THEN {"", "main.m"} ELSE {"main.m"}
-    IN {mk("obj", x[1], x[2], e, w, main) : x \in objSites, e \in Excs, w \in BOOLEAN, main \in mains}
-       \cup {mk("match", o, "ID", e, w, main) : o \in matchSites, e \in Excs, w \in BOOLEAN, main \in mains}
+    IN UNION {LET b == base(main) IN
+              {[b EXCEPT !.fault = flt("obj", x[1], x[2], e, w)] : x \in objSites, e \in Excs, w \in BOOLEAN}
+              \cup {[b EXCEPT !.fault = flt("match", o, "ID", e, w)] : o \in matchSites, e \in Excs, w \in BOOLEAN}
+                : main \in mains}
     : s \in Shapes}
 
-C34Scenarios ==
+C34Scenarios(u) ==
   UNION {{Build(s, rs, "main.m", <<>>, <<>>, NoFault) : rs \in AllRefs(s)} : s \in Shapes}
 
-MCScenarios == CASE Family = "c13" -> C13Scenarios
-                 [] Family = "c33" -> C33Scenarios
-                 [] Family = "c34" -> C34Scenarios
+\* TLC does not cache this (large) constant by itself: it is computed once into register 1
+ScenarioSeq == SetToSeq(CASE Family = "c13" -> C13Scenarios(0)
+                          [] Family = "c33" -> C33Scenarios(0)
+                          [] Family = "c34" -> C34Scenarios(0)
+                          [] Family = "shapes" -> ShapeScenarios(0))
+MCScenarios == IF PrintT("EVAL") THEN ScenarioSeq ELSE <<>>
 
 NoDev == {}
 EnvDev == IF IOEnv.VT_DEV = "" THEN {} ELSE {IOEnv.VT_DEV}
